@@ -262,6 +262,80 @@ ReplaceAllFromN(s, pat, u, i) ==
   ELSE SubSeq(s, i + 1, m[1]) \o u \o ReplaceAllFromN(s, pat, u, m[2])
 ReplaceReAllN(s, pat, u) == ReplaceAllFromN(s, pat, u, 0)
 
+-----------------------------------------------------------------------------
+(* The syntactic inclusion test (sub_language / concat_inclusion), transcribed.  A concatenation is flattened    *)
+(* into its factors; the right-hand side is cut into maximal runs of RIGID factors (character ranges) and         *)
+(* FLEXIBLE ones; a rigid first / last run must match the head / tail of the left-hand side factor by factor     *)
+(* (the left factor is a range covered by the right one); the remaining rigid runs are placed greedily from the  *)
+(* left (then, if that fails, from the right) and every flexible run must be exactly Sigma^*, which matches      *)
+(* whatever lies between its neighbours.  Indices are 0-based, runs are <<start, end, rigid>> with end exclusive.*)
+ConcatOrAtomic(t) == t.k \in {"none", "eps", "rng", "cat2", "loop"}
+MatchCS(x, p) == x.k = "rng" /\ p.lo <= x.lo /\ x.hi <= p.hi          \* the factor x is a range covered by p
+RECURSIVE RunsFrom(_, _, _)
+RunsFrom(v, j, i) ==                      \* runs of v[j..], the current run started at j, i = next index to look at
+  IF i >= Len(v) THEN <<<<j, Len(v), v[j + 1].k = "rng">>>>
+  ELSE IF (v[i + 1].k = "rng") # (v[j + 1].k = "rng")
+       THEN <<<<j, i, v[j + 1].k = "rng">>>> \o RunsFrom(v, i, i + 1)
+       ELSE RunsFrom(v, j, i + 1)
+BasePatterns(v) == IF Len(v) = 0 THEN <<>> ELSE RunsFrom(v, 0, 1)
+RigidAt(u, v, p, i) == \A j \in 0..(p[2] - p[1] - 1) : MatchCS(u[i + j + 1], v[p[1] + j + 1])
+PLen(p) == p[2] - p[1]
+\* greedy placement of the rigid runs from the left: sequence of <<startMatch, endMatch>> per run, or <<>> on failure
+RECURSIVE PlaceL(_, _, _, _, _)
+PlaceL(u, v, ps, k, i) ==                 \* runs ps[k..], search from position i of u
+  IF k > Len(ps) THEN <<TRUE, <<>>>>
+  ELSE IF ~ps[k][3] THEN LET rest == PlaceL(u, v, ps, k + 1, i) IN <<rest[1], <<<<0, 0>>>> \o rest[2]>>
+  ELSE LET cands == {j \in i..(Len(u) - PLen(ps[k])) : RigidAt(u, v, ps[k], j)} IN
+       IF cands = {} THEN <<FALSE, <<>>>>
+       ELSE LET j == CHOOSE x \in cands : \A y \in cands : x <= y
+                rest == PlaceL(u, v, ps, k + 1, j + PLen(ps[k]))
+            IN <<rest[1], <<<<j, j + PLen(ps[k])>>>> \o rest[2]>>
+RECURSIVE PlaceR(_, _, _, _, _)
+PlaceR(u, v, ps, k, i) ==                 \* runs ps[1..k] from the right, matches must end at or before i
+  IF k < 1 THEN <<TRUE, <<>>>>
+  ELSE IF ~ps[k][3] THEN LET rest == PlaceR(u, v, ps, k - 1, i) IN <<rest[1], rest[2] \o <<<<0, 0>>>>>>
+  ELSE LET cands == {j \in PLen(ps[k])..i : RigidAt(u, v, ps[k], j - PLen(ps[k]))} IN
+       IF cands = {} THEN <<FALSE, <<>>>>
+       ELSE LET j == CHOOSE x \in cands : \A y \in cands : x >= y
+                rest == PlaceR(u, v, ps, k - 1, j - PLen(ps[k]))
+            IN <<rest[1], rest[2] \o <<<<j - PLen(ps[k]), j>>>>>>
+\* every flexible run is exactly <<Sigma^*>> (its region in u is whatever lies between the neighbouring matches)
+FlexOk(u, v, ps, m) ==
+  IF Len(ps) = 0 THEN Len(u) = 0
+  ELSE \A k \in 1..Len(ps) : ps[k][3] \/ (PLen(ps[k]) = 1 /\ v[ps[k][1] + 1] = NAllT)
+ConcatInclusion(u0, v0) ==
+  LET b0 == BasePatterns(v0)
+      \* a rigid first run must match the head of u
+      headRigid == Len(b0) > 0 /\ b0[1][3]
+      headOk    == ~headRigid \/ (Len(u0) >= PLen(b0[1]) /\ RigidAt(u0, v0, b0[1], 0))
+      hl        == IF headRigid THEN PLen(b0[1]) ELSE 0
+      u1 == IF headOk THEN SubSeq(u0, hl + 1, Len(u0)) ELSE <<>>
+      v1 == SubSeq(v0, hl + 1, Len(v0))
+      b1 == IF headRigid THEN [k \in 1..(Len(b0) - 1) |-> <<b0[k + 1][1] - hl, b0[k + 1][2] - hl, b0[k + 1][3]>>] ELSE b0
+      \* a rigid last run (of what is left) must match the tail of u
+      tailRigid == Len(b1) > 0 /\ b1[Len(b1)][3]
+      tl        == IF tailRigid THEN PLen(b1[Len(b1)]) ELSE 0
+      tailOk    == ~tailRigid \/ (Len(u1) >= tl /\ RigidAt(u1, v1, b1[Len(b1)], Len(u1) - tl))
+      u2 == IF tailOk THEN SubSeq(u1, 1, Len(u1) - tl) ELSE <<>>
+      v2 == SubSeq(v1, 1, Len(v1) - tl)
+      b2 == IF tailRigid THEN SubSeq(b1, 1, Len(b1) - 1) ELSE b1
+  IN /\ headOk /\ tailOk
+     /\ \/ (PlaceL(u2, v2, b2, 1, 0)[1] /\ FlexOk(u2, v2, b2, <<>>))
+        \/ (PlaceR(u2, v2, b2, Len(b2), Len(u2))[1] /\ FlexOk(u2, v2, b2, <<>>))
+RECURSIVE SubLangN(_, _)
+SubLangN(r, s) ==                         \* the arms in the order of the code (the first that applies decides)
+  IF r = s THEN TRUE
+  ELSE IF r.k = "none" THEN TRUE
+  ELSE IF s.k = "none" THEN FALSE
+  ELSE IF r.k = "eps" THEN NulN(s)
+  ELSE IF s.k = "eps" THEN FALSE
+  ELSE IF r.k = "not" /\ s.k = "not" THEN SubLangN(s.a, r.a)
+  ELSE IF s.k = "alt" THEN ConcatOrAtomic(r) /\ \E x \in s.s : SubLangN(r, x)
+  ELSE IF r.k = "and" THEN ConcatOrAtomic(s) /\ \E x \in r.s : SubLangN(x, s)
+  ELSE IF r.k = "alt" THEN ConcatOrAtomic(s) /\ \A x \in r.s : SubLangN(x, s)
+  ELSE IF s.k = "and" THEN ConcatOrAtomic(r) /\ \A x \in s.s : SubLangN(r, x)
+  ELSE ConcatInclusion(FlatCat(r), FlatCat(s))
+
 (* exact language equality of two N-terms *)
 SameLang(a, b) == Equiv(Ke(a), Ke(b))
 =============================================================================
